@@ -113,35 +113,6 @@ let () =
         if impl_obs = "P" then bump extra "outcome_panic";
         let o = parse_op name args in
         let c = match !g with Some c -> c | None -> failwith "op before case" in
-        (* ---- the oracle of the property, on the implementation's observations ---- *)
-        if not !spec_dead then begin
-          let bad what spec =
-            incr mm_spec; if what <> "disconnect" then spec_dead := true else disc_dead := true;
-            report ("spec" ^ what) (Printf.sprintf "MISMATCH case=%d op=%d kind=spec what=%s line=[%s] spec=%s impl=%s\n" !case_no !op_no what line spec impl_obs) in
-          if impl_obs = "P" then bad "panic" "no-panic"
-          else begin
-            (match o with
-             | Pr k when String.length impl_obs > 1 && impl_obs.[0] = 'r' ->
-               cur_nontrivial := true;
-               (match String.split_on_char '.' (String.sub impl_obs 1 (String.length impl_obs - 1)) with
-                | [h; sl; sq] ->
-                  let pend = (try List.nth !pend_before (int_of_n k) with _ -> -1) in
-                  let (o', ok) = o_recv !ospec (n_of_int (max pend 0)) (n_of_int (int_of_string h)) (n_of_int (int_of_string sl)) (n_of_int (int_of_string sq)) in
-                  ospec := o';
-                  if pend < 0 || not ok then
-                    bad (if pend <> int_of_string h then "routing" else "order") (Printf.sprintf "response-of-request-%d-in-send-order-at-most-once" pend)
-                | _ -> bad "format" "r<hid>.<slot>.<seq>")
-             | _ -> ());
-            let (pend, act) = parse_digest impl in
-            if not !spec_dead then
-              List.iter (fun (h, conn) ->
-                  if not !spec_dead && not !disc_dead && not (o_act_connected (List.mem h pend) conn) then
-                    bad "disconnect" (Printf.sprintf "active-request-%d-not-connected-after-its-pending-response-was-dropped" h)) act;
-            pend_before := pend
-          end
-        end else begin
-          let (pend, _) = parse_digest impl in pend_before := pend
-        end;
         (* ---- the concrete model (the tie) ---- *)
         if not !dead then begin
           let next = ref [] in
@@ -161,6 +132,41 @@ let () =
                                        (match !first with Some t -> t | None -> "?") impl)
            | l -> cands := take 16 (List.rev l); if List.length l > !maxc then maxc := List.length l);
           if impl_obs = "P" then dead := true
+        end;
+        (* ---- the oracle of the property, on the implementation's observations ---- *)
+        if not !spec_dead then begin
+          let bad what spec =
+            (* name the class: does the (agreeing) model say the other end belongs to another client? *)
+            let what = if !dead || !cands = [] then what else
+                match what, o with
+                | "routing", _ when List.for_all last_recv_foreign !cands -> "routing_newclient"
+                | "disconnect", _ -> what
+                | _ -> what in
+            incr mm_spec; if String.length what >= 10 && String.sub what 0 10 = "disconnect" then disc_dead := true else spec_dead := true;
+            report ("spec" ^ what) (Printf.sprintf "MISMATCH case=%d op=%d kind=spec what=%s line=[%s] spec=%s impl=%s\n" !case_no !op_no what line spec impl_obs) in
+          if impl_obs = "P" then bad "panic" "no-panic"
+          else begin
+            (match o with
+             | Pr k when String.length impl_obs > 1 && impl_obs.[0] = 'r' ->
+               cur_nontrivial := true;
+               (match String.split_on_char '.' (String.sub impl_obs 1 (String.length impl_obs - 1)) with
+                | [h; sl; sq] ->
+                  let pend = (try List.nth !pend_before (int_of_n k) with _ -> -1) in
+                  let (o', ok) = o_recv !ospec (n_of_int (max pend 0)) (n_of_int (int_of_string h)) (n_of_int (int_of_string sl)) (n_of_int (int_of_string sq)) in
+                  ospec := o';
+                  if pend < 0 || not ok then
+                    bad (if pend <> int_of_string h then "routing" else "order") (Printf.sprintf "response-of-request-%d-in-send-order-at-most-once" pend)
+                | _ -> bad "format" "r<hid>.<slot>.<seq>")
+             | _ -> ());
+            let (pend, act) = parse_digest impl in
+            if not !spec_dead then
+              List.iter (fun (h, conn) ->
+                  if not !spec_dead && not !disc_dead && not (o_act_connected (List.mem h pend) conn) then
+                    bad (if (not !dead) && !cands <> [] && List.for_all (fun st -> act_foreign st (n_of_int h)) !cands then "disconnect_newclient" else "disconnect") (Printf.sprintf "active-request-%d-not-connected-after-its-pending-response-was-dropped" h)) act;
+            pend_before := pend
+          end
+        end else begin
+          let (pend, _) = parse_digest impl in pend_before := pend
         end
       | [] -> ()
       | "PROBE" :: _ -> ()
